@@ -1,9 +1,10 @@
 """C06 — distributed-mesh invariants at sync points (DESIGN.md section 6, L3 Dist)."""
 from . import streams_dist
+from . import streams_partmeshb
 
 ID = 'C06'
-PROPS_MODULE = ['Refine.Props.C06']
-STREAMS = streams_dist.STREAMS
+PROPS_MODULE = ['Refine.Props.C06', 'Refine.Props.C06Part']
+STREAMS = streams_dist.STREAMS + [streams_partmeshb.READ, streams_partmeshb.CHUNK_S, streams_partmeshb.CHUNK_MORE]
 TECHNIQUE = 'Lean 4 theorems about an executable SPMD model (World = list of per-rank states) + differential ' \
             'execution against the real ref_node/ref_cell/ref_migrate/ref_adapt code under mpiexec + the model ' \
             'invariant evaluated on state dumps of real runs'
